@@ -349,6 +349,8 @@ pub fn run_case(case: &mut Case) {
     // flags and arguments backed by environment variables: "Uses environment variable .."
     o.env = true;
     o.env_only = false;
+    // chains of adjacent commands are command levels like any other
+    o.adjacent_cmds = true;
     let mut spec = gen_options(&mut rng, o);
     seed_texts(&mut spec, &mut rng, 0);
     if rng.chance(1, 2) && same_named_commands(&mut spec) {
